@@ -105,34 +105,35 @@ inductive Item
   | rng (start stop : Nat)    -- `result.append((start, stop))`
   deriving DecidableEq, Repr
 
+/-- the loop body once `start` and `stop` are split and stripped -/
+def parseTokens (len : Nat) (start stop : Text) : Item :=
+  if !start.isEmpty then
+    match rangePos start with
+    | none => .bad
+    | some s =>
+      if !stop.isEmpty then
+        match rangePos stop with
+        | none => .bad
+        | some e =>
+          if e < s then .bad                      -- syntactically invalid
+          else if s ≥ len then .skip
+          else .rng s (min e (len - 1) + 1)
+      else
+        if s ≥ len then .skip
+        else .rng s (min (len - 1) (len - 1) + 1)
+  else
+    if stop.isEmpty then .bad
+    else match rangePos stop with
+      | none => .bad
+      | some n =>
+        if n = 0 ∨ len = 0 then .skip
+        else if n > len then .rng 0 len
+        else .rng (len - n) len
+
 def parseSpec (len : Nat) (brange : Text) : Item :=
   match split1 '-' brange with
   | none => .bad                                  -- `start, stop = [...]` unpack error
-  | some (a, b) =>
-    let start := strip a
-    let stop := strip b
-    if !start.isEmpty then
-      match rangePos start with
-      | none => .bad
-      | some s =>
-        if !stop.isEmpty then
-          match rangePos stop with
-          | none => .bad
-          | some e =>
-            if e < s then .bad                    -- syntactically invalid
-            else if s ≥ len then .skip
-            else .rng s (min e (len - 1) + 1)
-        else
-          if s ≥ len then .skip
-          else .rng s (min (len - 1) (len - 1) + 1)
-    else
-      if stop.isEmpty then .bad
-      else match rangePos stop with
-        | none => .bad
-        | some n =>
-          if n = 0 ∨ len = 0 then .skip
-          else if n > len then .rng 0 len
-          else .rng (len - n) len
+  | some (a, b) => parseTokens len (strip a) (strip b)
 
 /-- the `for brange in byteranges.split(',')` loop with its accumulator -/
 def loop (len : Nat) : List Text → List (Nat × Nat) → Option (List (Nat × Nat))
